@@ -170,7 +170,8 @@ func lattice(tier string) []LatCase {
 			surface = 0
 		}
 		out = append(out, LatCase{Kind: "lat", Mode: "js", Surface: surface, Target: t, Call: c, Label: label})
-		if goOK && (tier == "thorough" || n%3 == 0) {
+		small := c.K == 0 && c.Trap != "ownKeys" // prototype / extensibility / apply / construct: always both handler kinds
+		if goOK && (tier == "thorough" || n%3 == 0 || small) {
 			out = append(out, LatCase{Kind: "lat", Mode: "go", Surface: surface, Target: t, Call: c, Label: label})
 		}
 	}
@@ -315,9 +316,13 @@ func lattice(tier string) []LatCase {
 				add("honest", t, CallSpec{Trap: "apply", RV: rv}, true)
 			}
 			for _, rv := range []int{0, 3} {
-				// a Go Construct trap cannot return a non-object other than nil
 				add(honestLabel(rv != 0), t, CallSpec{Trap: "construct", RV: rv}, rv != 0)
 			}
+			// Go handlers returning the zero value (nil) where JS would return a value
+			out = append(out, LatCase{Kind: "lat", Mode: "go", Target: t, Call: CallSpec{Trap: "construct", RV: 0, RKind: "gonil"}, Label: "go-nil"})
+			out = append(out, LatCase{Kind: "lat", Mode: "go", Target: t, Call: CallSpec{Trap: "apply", RV: 0, RKind: "gonil"}, Label: "go-nil"})
+			out = append(out, LatCase{Kind: "lat", Mode: "go", Target: t, Call: CallSpec{Trap: "ownKeys", RKind: "gonil"}, Label: "go-nil"})
+			out = append(out, LatCase{Kind: "lat", Mode: "go", Target: t, Call: CallSpec{Trap: "get", K: 1, RV: 0, RKind: "gonil"}, Label: "go-nil"})
 		}
 	}
 	return out
